@@ -35,6 +35,10 @@ pub struct ReproCase
     /// contradicting build, so that it has to run in that same build
     #[serde(default)]
     pub other: Option<u16>,
+    /// the affected targets are written by a `cp -p` of the undeclared input (they carry ITS modification time), and the
+    /// changed input is an older file moved into place: the re-written target is not newer than what ruler remembers
+    #[serde(default)]
+    pub preserve: bool,
 }
 
 const UNDECL: &str = "undeclared.in";
@@ -118,6 +122,15 @@ pub fn test_case(c: &ReproCase, stats: &mut Stats) -> Result<(), String>
             {
                 for ins in chain.iter_mut()
                 {
+                    if c.preserve
+                    {
+                        if ins.target() == Some(t.as_str()) && !matches!(ins, Instr::ChmodX { .. })
+                        {
+                            *ins = Instr::EmitCopyP { t: t.clone(), src: UNDECL.to_string() };
+                            if !affected.contains(t) { affected.push(t.clone()); }
+                        }
+                        continue;
+                    }
                     let replace = match ins
                     {
                         Instr::EmitMix { t: tt, srcs, .. } if tt == t => { srcs.push(UNDECL.to_string()); None }
@@ -154,7 +167,15 @@ pub fn test_case(c: &ReproCase, stats: &mut Stats) -> Result<(), String>
 
     // the undeclared input changes; re-execution is forced
     w.sys.tick();
-    w.sys.h_write(UNDECL, b"two");
+    if c.preserve
+    {
+        // an older file moved into place (its own, never reused, past modification time)
+        w.sys.h_write_at(UNDECL, b"two", crate::verif::vsys::EPOCH_US - 5_000_000);
+    }
+    else
+    {
+        w.sys.h_write(UNDECL, b"two");
+    }
     w.model.files.insert(UNDECL.to_string(), b"two".to_vec());
     let ft = rule.targets[gen::pick(c.force_target, rule.targets.len())].clone();
     force(&mut w, &ft, &recorded[&ft], c.tamper);
@@ -345,6 +366,7 @@ pub fn test_case(c: &ReproCase, stats: &mut Stats) -> Result<(), String>
     }
     let proper_subset = rule.targets.len() >= 2 && !affected.is_empty() && affected.len() < rule.targets.len();
     if proper_subset { stats.class("proper-subset-affected"); }
+    if c.preserve && !affected.is_empty() { stats.class("rewritten-target-keeps-an-older-mtime"); }
     if !desc.is_empty() { stats.class("rule-has-descendants"); }
     if c.tamper { stats.class("forced-by-tamper"); } else { stats.class("forced-by-delete"); }
     if proper_subset
@@ -365,7 +387,8 @@ pub fn strategy(max_rules: usize) -> impl Strategy<Value = ReproCase>
         gen::graph_spec(max_rules, false).prop_map(|mut g| { for r in g.rules.iter_mut() { if r.n_targets < 2 && r.srcs.len() % 2 == 0 { r.n_targets = 2; } } g }),
         any::<u16>(), 0u8..8, any::<u16>(), any::<bool>(), gen::ops(mix, 5), prop_oneof![1 => Just(0u16), 1 => any::<u16>()],
         prop_oneof![1 => Just(None), 2 => any::<u16>().prop_map(Some)],
-    ).prop_map(|(graph, rule, affected_mask, force_target, tamper, prefix, sched_seed, other)| ReproCase { graph, rule, affected_mask, force_target, tamper, prefix, sched_seed, other })
+        prop_oneof![3 => Just(false), 1 => Just(true)],
+    ).prop_map(|(graph, rule, affected_mask, force_target, tamper, prefix, sched_seed, other, preserve)| ReproCase { graph, rule, affected_mask, force_target, tamper, prefix, sched_seed, other, preserve })
 }
 
 pub fn run(ctx: &Ctx) -> Report
